@@ -1,8 +1,8 @@
 INIT Init
 NEXT Next
 CONSTANTS
-  Part = "listans"
-  Big = FALSE
+  Part = "interval"
+  Big = TRUE
 INVARIANT LawTablesDescriptor
 INVARIANT LawTablesDefaults
 INVARIANT LawTablesNeutral
